@@ -114,17 +114,25 @@ Definition add_credentials (P : params) (k : tkind) (c : creds) (h : hdict) : hd
   | _, _ => h
   end.
 
-(* HttpTransport.send:
-     if 'Content-Encoding' in headers:          (exact key of a Python dict)
-         encoding = headers['Content-Encoding']
-         if encoding == 'gzip': msg = gzip.compress(msg)
-         elif encoding == 'deflate': msg = zlib.compress(msg)               *)
+(* the value of the LAST entry of a header dict whose name is k once lower-cased *)
+Definition last_ci (k : str) (h : hdict) (dflt : option bytes) : option bytes :=
+  fold_left (fun acc kv => if str_eqb k (lower (fst kv)) then Some (snd kv) else acc) h dflt.
+Definition ci_eqb (a b : bytes) : bool := str_eqb (lower a) (lower b).
+
+(* HttpTransport.send (since a506d72):
+     encoding = None
+     for name, value in headers.items():
+         if name.lower() == 'content-encoding': encoding = value.lower()
+     if encoding == 'gzip': msg = gzip.compress(msg)
+     elif encoding == 'deflate': msg = zlib.compress(msg)
+   (header names are ASCII tokens and values Latin-1, where str.lower() maps onto an ASCII
+   letter only from an ASCII letter: comparing with 'gzip' after ASCII lower-casing is the same) *)
 Inductive wire := WRaw (b : blob) | WGzip (b : blob) | WDeflate (b : blob).
 
 Definition wire_body (h : hdict) (msg : blob) : wire :=
-  match dict_get n_content_encoding h with
-  | Some v => if str_eqb v v_gzip then WGzip msg
-              else if str_eqb v v_deflate then WDeflate msg else WRaw msg
+  match last_ci l_content_encoding h None with
+  | Some v => if ci_eqb v v_gzip then WGzip msg
+              else if ci_eqb v v_deflate then WDeflate msg else WRaw msg
   | None => WRaw msg
   end.
 
@@ -210,15 +218,15 @@ Inductive result :=
 
 (* send():  message = fp.read()
             if 'Content-Encoding' in headers:     (HTTPMessage: name case-insensitive)
-                encoding = headers['Content-Encoding']
+                encoding = headers['Content-Encoding'].lower()
                 if encoding == 'gzip': message = gzip.decompress(message)
                 elif encoding == 'deflate': message = zlib.decompress(message)
             reply = Reply(http.client.OK, headers, message)                  *)
 Definition decode_reply (ce : option bytes) (body : blob) (gunzip inflate : option blob) : result :=
   match ce with
   | Some v =>
-      if str_eqb v v_gzip then match gunzip with Some p => RReply 200 p | None => RDecodeFail end
-      else if str_eqb v v_deflate then match inflate with Some p => RReply 200 p | None => RDecodeFail end
+      if ci_eqb v v_gzip then match gunzip with Some p => RReply 200 p | None => RDecodeFail end
+      else if ci_eqb v v_deflate then match inflate with Some p => RReply 200 p | None => RDecodeFail end
       else RReply 200 body
   | None => RReply 200 body
   end.
@@ -383,8 +391,6 @@ Definition hdr_all (name_lc : str) (h : list (str * bytes)) : list bytes :=
   map snd (filter (fun kv => str_eqb (lower (fst kv)) name_lc) h).
 Definition hdr_one (name_lc : str) (h : list (str * bytes)) : option bytes :=
   match hdr_all name_lc h with [v] => Some v | _ => None end.
-Definition ci_eqb (a b : bytes) : bool := str_eqb (lower a) (lower b).
-
 (* content codings are case-insensitive (RFC 9110 8.4.1) *)
 Definition decoded_by_label (ce : option bytes) (raw : blob) (gunzip inflate : option blob) : option blob :=
   match ce with
@@ -402,10 +408,26 @@ Definition spec_body (q : sreq) (o : sobs) : bool :=
   | _ => false
   end.
 
-(* "with the caller's headers": every name the caller gave arrives exactly once,
-   with a value the caller gave for that name (names are case-insensitive) *)
-Definition spec_caller_headers (q : sreq) (o : sobs) : bool :=
+(* credentials are due: at once for the preemptive transport, after the server's challenge
+   for the challenge-response transport *)
+Definition creds_due (k : tkind) (c : creds) (p : sresp) : bool :=
+  match c with
+  | (Some _, Some _) =>
+      match k with
+      | TBasicPre => true
+      | TChallenge => match p_challenge p with Some _ => true | None => false end
+      | TPlain => false
+      end
+  | _ => false
+  end.
+
+(* "with the caller's headers": every name the caller gave arrives exactly once, with a value
+   the caller gave for that name (names are case-insensitive).  A caller who both configures
+   credentials and spells out an Authorization header asks for two different things under one
+   name; the credentials clause of the property decides, so that name is left to spec_credentials *)
+Definition spec_caller_headers (k : tkind) (c : creds) (p : sresp) (q : sreq) (o : sobs) : bool :=
   forallb (fun kv =>
+    (creds_due k c p && str_eqb (lower (fst kv)) l_authorization) ||
     match hdr_one (lower (fst kv)) (o_hdrs o) with
     | Some v => existsb (str_eqb v) (hdr_all (lower (fst kv)) (q_hdrs q))
     | None => false
@@ -454,12 +476,7 @@ Definition spec_cookies (history : list rev) (q : sreq) (o : sobs) : bool :=
 Definition spec_credentials (k : tkind) (c : creds) (p : sresp) (o : sobs) : bool :=
   match c with
   | (Some u, Some pw) =>
-      let due := match k with
-                 | TBasicPre => true
-                 | TChallenge => match p_challenge p with Some _ => true | None => false end
-                 | TPlain => false
-                 end in
-      if due then
+      if creds_due k c p then
         match hdr_one l_authorization (o_hdrs o) with
         | Some v => match server_recovers v with
                     | Some (u', pw') => str_eqb u u' && str_eqb pw pw'
@@ -504,7 +521,7 @@ Definition spec_result (p : sresp) (o : sobs) : bool :=
   end.
 
 Definition spec_step (k : tkind) (c : creds) (history : list rev) (q : sreq) (p : sresp) (o : sobs) : bool :=
-  spec_body q o && spec_caller_headers q o && spec_soap_headers q o &&
+  spec_body q o && spec_caller_headers k c p q o && spec_soap_headers q o &&
   spec_cookies history q o && spec_credentials k c p o && spec_result p o.
 
 (* the response of a step that was challenged and not retried is the 401, which set no cookies *)
@@ -604,7 +621,7 @@ Definition spec_part (n : N) (k : tkind) (c : creds) (history : list rev)
                      (q : sreq) (p : sresp) (o : sobs) : bool :=
   match n with
   | 0 => spec_body q o
-  | 1 => spec_caller_headers q o && spec_soap_headers q o
+  | 1 => spec_caller_headers k c p q o && spec_soap_headers q o
   | 2 => spec_cookies history q o
   | 3 => spec_credentials k c p o
   | _ => spec_result p o
